@@ -191,6 +191,17 @@ Proof.
   apply mirror_fill_self_palindrome. rewrite map_length. exact Hm.
 Qed.
 
+(* ---- rejections: gauleg raises ValueError exactly for npts <= 0 (whatever the other arguments) *)
+Theorem gauleg_rejection orig x1 x2 npts coss :
+  F.gauleg_gen orig x1 x2 npts coss = Err EValue <-> (npts <= 0)%Z.
+Proof.
+  unfold F.gauleg_gen, F.reject_npts. destruct (Z.leb_spec npts 0) as [Hn|Hn].
+  - split; [intros _; exact Hn | reflexivity].
+  - split; [|lia]. intros H.
+    destruct (negb (length coss =? Z.to_nat (F.m_of npts))%nat); [discriminate|].
+    destruct (F.roots orig F.NEWTON_FUEL (Z.to_nat npts) (F.of_Z npts) coss F.Z1_INIT F.PP_INIT); discriminate.
+Qed.
+
 (* ------------------------------------------------------------------ (2) QGauss2 shapes *)
 Local Open Scope Z_scope.
 
